@@ -190,13 +190,117 @@ func c02(a *vlib.Args) {
 		}
 	}
 
+	// (d) size-field arithmetic boundaries: declared sizes around 2^31, 2^32 and 2^32-(the other size), every width
+	nArith := 0
+	for _, in := range sizeArithmetic() {
+		if next() {
+			c.try(in, "size-field arithmetic boundary")
+			nontrivial++
+			nArith++
+		}
+	}
+	r.Bounds["size_arithmetic_inputs"] = nArith
+
 	r.Distinct = nontrivial
 	r.Bounds["short_inputs_space"] = exhaustiveShort
 	r.Bounds["short_input_max_len"] = maxLen
 	r.Bounds["distinct_valid_encodings_mutated"] = c.seen.Len()
 	r.Outcomes["surface calls"] = c.sf.calls
-	r.Rule = fmt.Sprintf("(a) ALL byte strings of length 0..%d; (b) for every distinct valid encoding (<=24 bytes) of the <=%d-node tree space: every single trailer position x 8 boundary byte values, every front truncation, 4 hostile prefixes, and (trees <=%d nodes in quick; all in thorough) every single-byte position x all 256 values plus every 2-position mutation of the 6-byte trailer over 8x8 boundary byte values; (c) explicit table corruptions (non-monotonic, beyond data size, unsorted, duplicate tags, small and big tables with 1..3 entries). Each input is placed flush against the end and against the start of a PROT_NONE-guarded region and driven through the whole public read surface (Parse*/Open*/Decode*/tables/typed accessors/typed list wrappers/generated struct decode). non-trivial = non-empty and not a valid encoding itself", maxLen, trailerNodes, mutNodes)
+	r.Rule = fmt.Sprintf("(a) ALL byte strings of length 0..%d; (b) for every distinct valid encoding (<=24 bytes) of the <=%d-node tree space: every single trailer position x 8 boundary byte values, every front truncation, 4 hostile prefixes, and (trees <=%d nodes in quick; all in thorough) every single-byte position x all 256 values plus every 2-position mutation of the 6-byte trailer over 8x8 boundary byte values; (c) explicit table corruptions (non-monotonic, beyond data size, unsorted, duplicate tags, small and big tables with 1..3 entries); (d) size-field arithmetic boundaries: bytes/string/struct/list/message trailers whose declared data and table sizes range over {0,1,real,real+-1,0xfc,0xfd,0xffff,0x10000,2^31-2..2^31+1,2^32-16..2^32-1,2^32-(other size)+-2}, each in every compact-int width (1/3/5/9 bytes). Each input is placed flush against the end and against the start of a PROT_NONE-guarded region and driven through the whole public read surface (Parse*/Open*/Decode*/tables/typed accessors/typed list wrappers/generated struct decode). non-trivial = non-empty and not a valid encoding itself", maxLen, trailerNodes, mutNodes)
 	r.Write(a)
+}
+
+// sizeArithmetic builds trailers whose declared sizes sit on the boundaries of 32-bit (and int) arithmetic, alone and
+// in combination (data size + table size wrapping around 2^32), in every compact-int width.
+func sizeArithmetic() [][]byte {
+	var out [][]byte
+	widths := func(v uint64) [][]byte {
+		var w [][]byte
+		if v <= 0xfc {
+			w = append(w, []byte{byte(v)})
+		}
+		if v <= 0xffff {
+			w = append(w, []byte{byte(v >> 8), byte(v), 0xfd})
+		}
+		if v <= 0xffffffff {
+			w = append(w, []byte{byte(v >> 24), byte(v >> 16), byte(v >> 8), byte(v), 0xfe})
+		}
+		w = append(w, []byte{byte(v >> 56), byte(v >> 48), byte(v >> 40), byte(v >> 32), byte(v >> 24), byte(v >> 16), byte(v >> 8), byte(v), 0xff})
+		return w
+	}
+	sizes := func(real, other uint64) []uint64 {
+		set := map[uint64]bool{}
+		var l []uint64
+		add := func(v uint64) {
+			if !set[v] {
+				set[v] = true
+				l = append(l, v)
+			}
+		}
+		for _, v := range []uint64{real, 0, 1, real - 1, real + 1, 0xfc, 0xfd, 0xff, 0x100, 0xffff, 0x10000, 0x7ffffffe, 0x7fffffff, 0x80000000, 0x80000001, 1 << 32, 1<<32 + 6, 1<<63 - 1, 1 << 63, 1<<64 - 1} {
+			add(v)
+		}
+		for k := uint64(0); k < 16; k++ {
+			add(0xffffffff - k)
+		}
+		for d := int64(-2); d <= 2; d++ {
+			add(uint64(int64(1<<32-other) + d))
+			add(uint64(int64(1<<31-other) + d))
+		}
+		return l
+	}
+	data := []byte{1, 2, 7, 3, 0xfc, 20} // true, false, byte(7), uint16(0xfc): values ending at 1,2,4,6
+	// single-size kinds
+	for _, typ := range []byte{50, 60, 90} {
+		body := data
+		if typ == 60 {
+			body = []byte{'a', 'b', 'c', 'd', 'e', 0}
+		}
+		for _, sz := range sizes(uint64(len(body)), 0) {
+			for _, w := range widths(sz) {
+				b := append(append([]byte{}, body...), w...)
+				out = append(out, append(b, typ))
+			}
+		}
+	}
+	// two-size kinds: list / message, small / big, tables with one and two entries
+	for _, typ := range []byte{70, 71, 80, 81} {
+		for _, ends := range [][]int{{6}, {2, 6}} {
+			var table []byte
+			for i, o := range ends {
+				switch typ {
+				case 70:
+					table = append(table, byte(o>>8), byte(o))
+				case 71:
+					table = append(table, 0, 0, byte(o>>8), byte(o))
+				case 80:
+					table = append(table, byte(i+1), byte(o>>8), byte(o))
+				case 81:
+					table = append(table, 0, byte(i+1), 0, 0, byte(o>>8), byte(o))
+				}
+			}
+			dreal, treal := uint64(len(data)), uint64(len(table))
+			for _, dsz := range sizes(dreal, treal) {
+				tszs := []uint64{treal}
+				if dsz == dreal || dsz >= 0x7ffffffe {
+					tszs = sizes(treal, dsz&0xffffffff)
+				}
+				for _, tsz := range tszs {
+					for _, dw := range widths(dsz) {
+						for _, tw := range widths(tsz) {
+							if tsz != treal && dsz != dreal && len(dw) != 5 && len(tw) != 5 {
+								continue // both hostile: only the natural 5-byte width pair
+							}
+							b := append(append([]byte{}, data...), table...)
+							b = append(append(b, dw...), tw...)
+							out = append(out, append(b, typ))
+						}
+					}
+				}
+			}
+		}
+	}
+	return out
 }
 
 // tableCorruptions builds list and message encodings whose offset tables are corrupted in every listed way.
